@@ -36,17 +36,18 @@ class TournamentSelection(GeneticStep):
         target_size: int,
         generation: int,
     ) -> Iterator[Individual]:
-        candidates = list(population)
-        evaluator.evaluate(problem, candidates)
+        pool = list(population)  # the population may be a one-shot iterator
+        evaluator.evaluate(problem, pool)
+        candidates = list(pool)
         for _ in range(target_size):
-            candidates = [random.choice(candidates) for _ in range(self.tournament_size)]
-            winner = max(candidates, key=Individual.key_function(problem))
+            tournament = [random.choice(candidates) for _ in range(self.tournament_size)]
+            winner = max(tournament, key=Individual.key_function(problem))
             yield winner
 
             if not self.with_replacement:
                 candidates.remove(winner)
                 if not candidates:
-                    candidates = list(population)
+                    candidates = list(pool)
 
 
 class LexicaseSelection(GeneticStep):
